@@ -1991,4 +1991,24 @@ theorem truncated_bytes_rejected {α} (rd : Rd α) (wr : α → Stream) (hext : 
   intro h
   exact hcut (List.map_eq_nil_iff.mp h)
 
+/-- **POMDP::Policy, as the source stands**: either the writer still has the 6-digit defect (finding C17-1), or every
+    valid policy of any horizon round-trips. Re-checked against the regenerated `Gen.IOPrec` on every run; with the fix
+    applied the first alternative is false and this is the full-strength statement. -/
+theorem roundtrip_ppol_or_defect [DecidableEq D] (io : DblIO D) (hat : NoAt io) (h17 : Dbl17 io) (S A O : Nat) (vf : VF D)
+    (hv : ppolValidB io S A O vf = true) (hA : A ≤ two64) (hlen : ∀ l ∈ vf, l.length ≤ two64) :
+    AITB.Gen.IOPrec.pomdpPolicy = 6 ∨ RoundTrips (rdPPol io S A O) (wrPPol io genPrec) vf := by
+  rcases IOPrec_pomdpPolicy with h | h
+  · exact Or.inl h
+  · exact Or.inr (roundtrip_ppol_src io hat h17 h S A O vf hv hA hlen)
+
+/-- **MDP::SparseExperience, as the source stands**: either counts are still read through `double` (finding C17-2), or
+    every valid sparse experience round-trips. -/
+theorem roundtrip_sexp_or_defect (io : DblIO D) (h17 : Dbl17 io) (S A : Nat) (e : SExp D) (hv : sexpValidB S A e = true)
+    (hdimS : S * S < two64) (hdimA : S * A < two64) :
+    AITB.Gen.IOPrec.sparseTableViaDouble = true ∨
+      RoundTrips (rdSExp io AITB.Gen.IOPrec.sparseTableViaDouble S A) (wrSExp io genPrec) e := by
+  cases h : AITB.Gen.IOPrec.sparseTableViaDouble with
+  | true => exact Or.inl rfl
+  | false => exact Or.inr (by rw [← h]; exact roundtrip_sexp_src io h17 h S A e hv hdimS hdimA)
+
 end AITB.Codec
